@@ -88,6 +88,27 @@ pub fn long_document(rng: &mut Rng) -> String {
     lines.join(sep)
 }
 
+/// a definition of every arity (also named like a built-in, also calling ITSELF with a wrong argument list in its body)
+/// against calls of every arity and argument kind
+pub fn arity_documents() -> Vec<String> {
+    let defs = ["DEF FNA(X) = X + 1", "DEF FNA(X, Y) = X + Y", "DEF FNA(X, Y, Z) = X + Y * Z", "DEF FNA(A$) = 1", "DEF FNA(X, B$) = X", "DEF FNA$(X) = \"s\"", "DEF FNA(X) = \"s\"",
+        // a definition named like a built-in: both walkers must resolve the call the same way
+        "DEF INT(A$) = 1", "DEF ABS(X, Y) = X - Y", "DEF RND(X$) = 1", "DEF ABS(X) = X + 1",
+        // the body refers to the function being defined, with too few / too many / wrongly typed arguments
+        "DEF FNA(X, Y) = FNA(X) + Y", "DEF FNA(X) = FNA(X, 1)", "DEF FNA(A$) = FNA(1)", "DEF FNA(X, Y) = FNA(X, Y, 1)", "DEF FNA(X) = X + FNA()"];
+    let args = ["", "1", "1,", "1, 2", "1, 2,", "1, 2, 3", "1, 2, 3, 4", "\"s\"", "1, \"s\"", "\"s\", 1", ",1", "1 2", "(1), (2)", "FNA(1), 2"];
+    let mut out = vec![];
+    for d in defs {
+        for a in args {
+            for call in ["PRINT FNA({})", "Y = FNA({}) * 2", "PRINT 1 + FNA({})"] {
+                let fname = d[4..d.find('(').unwrap()].to_string();
+                out.push(format!("10 {}\n20 {}", d, call.replace("{}", a).replace("FNA(", &format!("{}(", fname))));
+            }
+        }
+    }
+    out
+}
+
 fn analyze_op(doc: &str) -> String {
     if doc.is_empty() {
         "analyze".to_string()
@@ -117,6 +138,9 @@ pub fn c05_cases(rng: &mut Rng, tier: &str) -> (Vec<Case>, bool) {
         ] {
             cases.push(Case { ops: vec![analyze_op(&d)], checks: vec!["analysis-wellformed 0".into()], tag: "very-deep".into(), nontrivial: true, show: format!("{}… ({} levels)", d.chars().take(30).collect::<String>(), n) });
         }
+    }
+    for d in arity_documents() {
+        cases.push(Case { ops: vec![analyze_op(&d)], checks: vec!["analysis-wellformed 0".into()], tag: "function-arity".into(), nontrivial: true, show: d.replace('\n', " | ") });
     }
     for _ in 0..(n / 150).max(6) {
         let d = long_document(rng);
@@ -170,9 +194,11 @@ pub fn c20_cases(rng: &mut Rng, tier: &str) -> (Vec<Case>, bool) {
                 ops.push(if t.is_empty() { format!("lspq {}", k) } else { format!("lspq {} {}", k, hexs(&t)) });
             } else {
                 let d = if rng.chance(1, 3) { document(rng) } else { format!("{} PRINT \"{}\" + {}", (k + 1) * 10, rng.pick(&["é", "doc", "😀"]), k) };
-                ops.push(if d.is_empty() { format!("lspu {}", k) } else { format!("lspu {} {}", k, hexs(&d)) });
+                // an update of an open document is a change notification or - one time in four - the document opened again
+                let verb = if texts[k].is_some() && rng.chance(1, 4) { "lspo" } else { "lspu" };
+                ops.push(if d.is_empty() { format!("{} {}", verb, k) } else { format!("{} {} {}", verb, k, hexs(&d)) });
                 checks.push(format!("lsp-wellformed {}", ops.len() - 1));
-                show.push(format!("{}:{}", k, d.chars().take(30).collect::<String>()));
+                show.push(format!("{}{}:{}", if verb == "lspo" { "reopen " } else { "" }, k, d.chars().take(30).collect::<String>()));
                 texts[k] = Some(d);
             }
         }
@@ -183,6 +209,19 @@ pub fn c20_cases(rng: &mut Rng, tier: &str) -> (Vec<Case>, bool) {
             }
         }
         cases.push(Case { ops, checks, tag: "several-documents".into(), nontrivial: true, show: format!("{:?}", show) });
+    }
+    // the same document opened twice with different texts (with or without a close in between): the second open is
+    // answered for ITS text - shorter, longer, clean after broken, broken after clean
+    let pairs = [("10 PRINT \"é\" + 1\n20 GOTO 99\n30 X = 1.2.3", "10 PRINT 1"), ("10 PRINT 1", "10 PRINT \"é\" + 1\n20 GOTO 99"), ("10 REM a\n20 REM b\n30 PRINT \"x", ""), ("", "10 PRINT \"open")];
+    for (first, second) in pairs {
+        for pad in ["", " "] {
+            let second = format!("{}{}", second, pad); // the padding flips whether a close is sent
+            let mut ops = vec!["new 0 0".to_string()];
+            ops.push(if first.is_empty() { "lspu 0".to_string() } else { format!("lspu 0 {}", hexs(first)) });
+            ops.push(if second.is_empty() { "lspo 0".to_string() } else { format!("lspo 0 {}", hexs(&second)) });
+            ops.push(if second.is_empty() { "lspq 0".to_string() } else { format!("lspq 0 {}", hexs(&second)) });
+            cases.push(Case { ops, checks: vec!["lsp-wellformed 1".into(), "lsp-wellformed 2".into()], tag: "reopened".into(), nontrivial: true, show: format!("{:?} then open again {:?}", first, second) });
+        }
     }
     (cases, false)
 }
@@ -280,15 +319,9 @@ pub fn c06_cases(rng: &mut Rng, tier: &str) -> (Vec<Case>, bool) {
             cases.push(Case { ops: w.ops, checks: vec![format!("agree-sound {} {}-{}", ai, a0, b)], tag: "fractional-jump".into(), nontrivial: true, show: text.replace('\n', " | ") });
         }
     }
-    let defs = ["DEF FNA(X) = X + 1", "DEF FNA(X, Y) = X + Y", "DEF FNA(X, Y, Z) = X + Y * Z", "DEF FNA(A$) = 1", "DEF FNA(X, B$) = X", "DEF FNA$(X) = \"s\"", "DEF FNA(X) = \"s\"",
-        // a definition named like a built-in: both walkers must resolve the call the same way
-        "DEF INT(A$) = 1", "DEF ABS(X, Y) = X - Y", "DEF RND(X$) = 1", "DEF ABS(X) = X + 1"];
-    let args = ["", "1", "1,", "1, 2", "1, 2,", "1, 2, 3", "1, 2, 3, 4", "\"s\"", "1, \"s\"", "\"s\", 1", ",1", "1 2", "(1), (2)", "FNA(1), 2"];
-    for d in defs {
-        for a in args {
-            for call in ["PRINT FNA({})", "Y = FNA({}) * 2", "PRINT 1 + FNA({})"] {
-                let fname = d[4..d.find('(').unwrap()].to_string();
-                let text = format!("10 {}\n20 {}", d, call.replace("{}", a).replace("FNA", &fname));
+    for text in arity_documents() {
+        {
+            {
                 let mut w = Walk::new(false, false);
                 w.op(&analyze_op(&text));
                 let ai = w.last();
